@@ -580,7 +580,39 @@ class Evaluator:
                     raise Inconclusive("reference returned from symbolic branch")
                 return gamma(c, r1, r2)
             elif k == "for":
-                self.exec_for(s, frame)
+                # loops are unrolled *inside the statement list*, so that a symbolic `if` in the body forks the whole
+                # continuation (remaining iterations and the statements after the loop) and a `return` in the body works
+                if s.get("init"):
+                    r0 = self.exec_block_list([s["init"]], frame)
+                    if r0 is not _FALL:
+                        return r0
+                stmts = [{"k": "forloop", "s": s, "n": 0}] + list(stmts[i + 1:])
+                i = 0
+                continue
+            elif k == "forloop":
+                lp = s["s"]
+                c = True if lp.get("c") is None else self.rv(self.eval(lp["c"], frame))
+                if c is False:
+                    i += 1
+                    continue
+                if c is not True:
+                    raise Inconclusive("loop with symbolic condition in " + frame["f"]["name"])
+                if s["n"] >= 64:
+                    raise Inconclusive("loop does not terminate within 64 iterations in " + frame["f"]["name"])
+                nxt = [lp["body"]]
+                if lp.get("inc"):
+                    nxt.append({"k": "forinc", "e": lp["inc"]})
+                stmts = nxt + [{"k": "forloop", "s": lp, "n": s["n"] + 1}] + list(stmts[i + 1:])
+                i = 0
+                continue
+            elif k == "forinc":
+                self.eval(s["e"], frame)
+            elif k == "rangebind":
+                d = s["var"]
+                if is_ref(self.F.T(d["t"])):
+                    frame["locals"][d["i"]] = s["el"]
+                else:
+                    frame["locals"][d["i"]] = self.new_loc(self.load(s["el"]), "l_" + d["n"])
             elif k == "try":
                 r = self.exec_block_list([s["body"]], frame)
                 if r is not _FALL:
@@ -588,9 +620,17 @@ class Evaluator:
             elif k in ("nullstmt",):
                 pass
             elif k == "while":
-                self.exec_for({"k": "for", "init": None, "c": s["c"], "inc": None, "body": s["body"]}, frame)
+                stmts = [{"k": "forloop", "s": {"c": s["c"], "inc": None, "body": s["body"]}, "n": 0}] + list(stmts[i + 1:])
+                i = 0
+                continue
             elif k == "rangefor":
-                self.exec_rangefor(s, frame)
+                els = self.range_elements(s, frame)
+                unrolled = []
+                for el in els:
+                    unrolled += [{"k": "rangebind", "var": s["var"], "el": el}, s["body"]]
+                stmts = unrolled + list(stmts[i + 1:])
+                i = 0
+                continue
             elif k in ("do", "switch", "break", "continue", "unkstmt"):
                 raise Inconclusive("statement kind %s in %s" % (k, frame["f"]["name"]))
             else:
@@ -618,6 +658,22 @@ class Evaluator:
         frame["locals"][d["i"]] = lv
         if d.get("init") is not None:
             self.init_into(lv, d["init"], frame)
+
+    def range_elements(self, s, frame):
+        """The element lvalues a range-for visits (std::array / built-in array of known size)."""
+        rng = self.eval(s["range"], frame)
+        if not isinstance(rng, LV):
+            rng = self.new_loc(rng, "range")
+        v = self.load(rng)
+        if isinstance(v, Obj) and "_M_elems" in v.f and isinstance(v.f["_M_elems"], Arr):
+            n = len(v.f["_M_elems"].items)
+            path = rng.path + ("_M_elems",)
+        elif isinstance(v, Arr):
+            n = len(v.items)
+            path = rng.path
+        else:
+            raise Inconclusive("range-for over %r" % (type(v).__name__,))
+        return [LV(rng.loc, path + (i,)) for i in range(n)]
 
     def exec_rangefor(self, s, frame):
         rng = self.eval(s["range"], frame)
